@@ -5,7 +5,12 @@
    the node / edge sets parsed from its DOT source.
    code = bit0 (model <> implementation) + 2 * bit1 (the implementation's graphs violate the
    property outside every known region) + 4 * (mask of the known regions that were hit):
-     1 graph-false-neighbour  2 lazy-inverse  4 filegraph-reversed  8 callgraph-limit-double-count *)
+     1 graph-false-neighbour  2 lazy-inverse  4 filegraph-reversed  8 callgraph-limit-double-count
+     16 module-procedure-impl-edge  32 external-procedure-call-unresolved
+   Two relations are kept apart: the MODEL is fed with the relation read from FORD's correlated objects
+   (model = implementation tie), the SPEC with the relation the generator wrote into the source
+   (uses / ancestry / extension / composition / calls / bindings / interface implementations / file
+   dependencies, harness/gen/graphs.py [declared]) whenever the project was generated in strict mode. *)
 From Coq Require Import NArith.
 From Ford Require Import Base.Str Out.Graph Out.GraphSpec.
 
